@@ -344,18 +344,19 @@ theorem alignDims_axis_attrs {α : Type} (arrays rs : List (DimArray α)) (h : a
 theorem broadcast_attrs {α : Type} (a r : DimArray α) (target : List Axis) (h : broadcast a target = .ok r) :
     r.attrs = a.attrs := (C16.broadcast_spec a r target h).1
 
-/-- `broadcast`, any input: every `(name, attrs)` pair of the result is empty, or a pair of `a`, or a pair of the
-target axes (a repeated axis IS the target axis) -/
+/-- `broadcast`, any input: every `(name, attrs)` pair of the result is empty or a pair of `a` - never one of the
+target axes (a repeated axis is a fresh `Axis(values, name)` with the target's labels and NO metadata) -/
 theorem broadcast_axis_attrs {α : Type} (a r : DimArray α) (target : List Axis) (h : broadcast a target = .ok r) :
-    ∀ p ∈ metaAll r.axes, p.2 = [] ∨ p ∈ metaAll a.axes ∨ p ∈ metaAll target := (C16.broadcast_spec a r target h).2
+    ∀ p ∈ metaAll r.axes, p.2 = [] ∨ p ∈ metaAll a.axes := (C16.broadcast_spec a r target h).2
 
 /-- `broadcast` on plain arrays: an axis of `a` is kept as it is - unless it has one position and the target axis
-has not: then it is replaced by the target axis, with the TARGET's metadata -/
+has not: then it is replaced by a fresh axis with the target's name and labels (`Axis.bare`), WITHOUT metadata
+(neither `a`'s singleton axis' nor the target's) -/
 theorem broadcast_plain_axis_attrs {α : Type} (a r : DimArray α) (hw : a.WF) (hpa : PlainAxes a.axes) (target : List Axis)
     (hpt : PlainAxes target) (hnd : (target.map (·.name)).Nodup) (hpn : ∀ t ∈ target, PlainName t.name)
     (hfit : ∀ ax ∈ a.axes, ax.name ∉ target.map (·.name) → ax.size = 1) (h : broadcast a target = .ok r) :
     (∀ ax' ∈ r.axes, ∃ t ∈ target, ax' = bcastAxis a t) ∧
-    ∀ ax' ∈ r.axes, ∀ ax ∈ a.axes, ax'.name = ax.name → ax' = ax ∨ (ax.size = 1 ∧ ax' ∈ target) :=
+    ∀ ax' ∈ r.axes, ∀ ax ∈ a.axes, ax'.name = ax.name → ax' = ax ∨ (ax.size = 1 ∧ ∃ t ∈ target, ax' = t.bare) :=
   C16.broadcast_plain a r hw hpa target hpt hnd hpn hfit h
 
 theorem broadcastArrays_attrs {α : Type} (arrays rs : List (DimArray α)) (h : broadcastArrays arrays = .ok rs) :
@@ -807,14 +808,13 @@ def exC16Target : List Axis :=
   [exC16.axes.getD 0 default, exC16.axes.getD 1 default,
    { name := "z", labels := [.str "p", .str "q"], kind := .U, attrs := [("tgt", 4)] }]
 
-/-- `broadcast` IN THE MIRROR: the repeated axis `z` carries the TARGET axis' metadata (`repeatAxis o t ...` is given
-the whole target axis).  DISCREPANCY: the Python code calls `newobj.repeat(newaxis.values, axis=newaxis.name)`
-(core/reshape.py, `broadcast`) - the labels only - so that in the library the repeated axis is a fresh
-`Axis(values, name)` WITHOUT metadata (observed: `('z', {})`).  Neither keeps the metadata `("note", 3)` of `a`'s own
-singleton axis. -/
+/-- `broadcast`: the repeated axis `z` carries NO metadata - the Python code calls
+`newobj.repeat(newaxis.values, axis=newaxis.name)` (core/reshape.py, `broadcast`), the labels only, so that the
+repeated axis is a fresh `Axis(values, name)` (observed: `('z', {})`): neither the target's `("tgt", 4)` nor the
+`("note", 3)` of `a`'s own singleton axis. -/
 theorem broadcast_example :
     ((broadcast exC16 exC16Target).toOption.map fun r => (r.attrs, axisMeta r.axes)) =
-      some ([("title", 5)], [("x", [("units", 1)]), ("y", [("long_name", 2)]), ("z", [("tgt", 4)])]) := by decide
+      some ([("title", 5)], [("x", [("units", 1)]), ("y", [("long_name", 2)]), ("z", [])]) := by decide
 
 /-- `Axis.intersection` with an empty axis forgets the metadata; `Axis.union` of an EMPTY axis with another one
 returns the other one's -/
@@ -855,7 +855,7 @@ metadata of the axes (by name).  Every entry is a theorem of this file (or the o
 | `flatten`                          | kept        | `flatten_attrs`         | others same; group: none; members keep theirs                | `flatten_axis_attrs`             |
 | `reshape`                          | kept        | `reshape_attrs`         | no foreign metadata; plain case: surviving axes are the same | `reshape_axis_attrs`, `reshape_plain_axis_attrs` |
 | `alignDims`                        | kept (each) | `alignDims_attrs`       | as `reshape`, array by array                                 | `alignDims_axis_attrs`           |
-| `broadcast`                        | kept        | `broadcast_attrs`       | `a`'s or the target's; plain case: replaced only if repeated (MIRROR ≠ Python for the repeated axis, see `broadcast_example`) | `broadcast_axis_attrs`, `broadcast_plain_axis_attrs` |
+| `broadcast`                        | kept        | `broadcast_attrs`       | `a`'s or none; plain case: replaced (fresh axis, NO metadata) only if repeated, see `broadcast_example` | `broadcast_axis_attrs`, `broadcast_plain_axis_attrs` |
 | `broadcastArrays`                  | kept (each) | `broadcastArrays_attrs` | (as `broadcast`)                                             |                                  |
 | `operation` (DimArray, DimArray)   | DROPPED     | `operation_attrs`       | KEPT: pairs of `a` or `b` (or none), nothing foreign         | `operation_axis_attrs`           |
 | `operationNd` (scalar / ndarray)   | DROPPED     | `operationNd_attrs`     | same axes                                                    | `operationNd_axis_attrs`         |
